@@ -23,6 +23,8 @@ type Clause struct {
 }
 
 type LoopSpec struct {
+	Modifies   []ModItem
+	HasMod     bool
 	Invariants []*Clause
 	Decreases  *Clause
 	Bounded    int
@@ -37,29 +39,31 @@ type ModItem struct {
 }
 
 type Contract struct {
-	Kind       string // func, extern, iface, closure
-	Pkg        string // package path the contract file belongs to
-	Key        string // canonical key, see funcKey
-	ParamNames []string
-	Props      []string
-	Requires   []*Clause
-	Ensures    []*Clause
-	Loops      map[int]*LoopSpec
-	Modifies   []ModItem
-	HasMod     bool
-	Inline     bool
-	NoInline   bool
-	Trusted    bool
-	Pure       bool
-	Opaque     bool // do not look into the body even without contract clauses
-	NoReturn   bool
-	Replay     string
-	Uses       []*Clause // lemma instances assumed at entry: name(args)
-	Nilable    bool      // the receiver may be nil (no non-nil assumption at entry)
-	TypedHeap  bool      // state well-typedness of unconstrained heap versions as axioms (needed for heap reads in specs)
-	File       string
-	Line       int
-	used       bool
+	Kind         string // func, extern, iface, closure
+	Pkg          string // package path the contract file belongs to
+	Key          string // canonical key, see funcKey
+	ParamNames   []string
+	Props        []string
+	Requires     []*Clause
+	Ensures      []*Clause
+	Loops        map[int]*LoopSpec
+	Modifies     []ModItem
+	HasMod       bool
+	Inline       bool
+	NoInline     bool
+	Trusted      bool
+	Pure         bool
+	Opaque       bool // do not look into the body even without contract clauses
+	NoReturn     bool
+	Replay       string
+	Uses         []*Clause // lemma instances assumed at entry: name(args)
+	Nilable      bool      // the receiver may be nil (no non-nil assumption at entry)
+	LemmaList    []string  // if HasLemmaList: only these lemmas are added as axioms
+	HasLemmaList bool
+	TypedHeap    bool // state well-typedness of unconstrained heap versions as axioms (needed for heap reads in specs)
+	File         string
+	Line         int
+	used         bool
 }
 
 type SpecFn struct {
@@ -110,7 +114,7 @@ type ContractSet struct {
 var clauseKeywords = map[string]bool{
 	"func": true, "spec": true, "extern": true, "iface": true, "closure": true, "requires": true, "ensures": true,
 	"loop": true, "modifies": true, "inline": true, "noinline": true, "trusted": true, "pure": true, "lemma": true,
-	"axiom": true, "ghost": true, "type": true, "opaque": true, "noreturn": true, "replay": true, "recspec": true, "uspec": true, "uses": true, "nilable": true, "typedheap": true,
+	"axiom": true, "ghost": true, "type": true, "opaque": true, "noreturn": true, "replay": true, "recspec": true, "uspec": true, "uses": true, "nilable": true, "typedheap": true, "lemmas": true,
 }
 
 var propsRe = regexp.MustCompile(`^\[((?:C[0-9]+)(?:\s*,\s*C[0-9]+)*)\]\s*`)
@@ -307,6 +311,26 @@ func (cs *ContractSet) LoadFile(path, pkgPath string) {
 				}
 			case "bounded":
 				ls.Bounded, _ = strconv.Atoi(parts[2])
+			case "modifies":
+				ls.HasMod = true
+				for _, it := range splitTop(parts[2]) {
+					it = strings.TrimSpace(it)
+					switch {
+					case it == "" || it == "nothing":
+					case strings.HasPrefix(it, "heap "):
+						ls.Modifies = append(ls.Modifies, ModItem{Src: it, Heap: strings.TrimSpace(it[5:])})
+					case strings.HasPrefix(it, "fresh "):
+						ls.Modifies = append(ls.Modifies, ModItem{Src: it, Heap: strings.TrimSpace(it[6:]), Fresh: true})
+					default:
+						src := strings.Replace(strings.Replace(it, ".*", ".ALLFIELDS", 1), "[*]", ".ALLELEMS", 1)
+						e, err := parseExpr(src)
+						if err != nil {
+							cs.errf(path, ll.line, "%v", err)
+							continue
+						}
+						ls.Modifies = append(ls.Modifies, ModItem{Src: it, Expr: e})
+					}
+				}
 			default:
 				cs.errf(path, ll.line, "bad loop clause kind %q", parts[1])
 			}
@@ -349,6 +373,16 @@ func (cs *ContractSet) LoadFile(path, pkgPath string) {
 		case "typedheap":
 			if cur != nil {
 				cur.TypedHeap = true
+			}
+		case "lemmas":
+			if cur != nil {
+				cur.HasLemmaList = true
+				for _, n := range strings.Split(rest, ",") {
+					n = strings.TrimSpace(n)
+					if n != "" && n != "none" {
+						cur.LemmaList = append(cur.LemmaList, n)
+					}
+				}
 			}
 		case "inline":
 			if cur != nil {
